@@ -341,6 +341,7 @@ func runC10(c *Ctx) {
 	c.Clause("C10.8 tokenLength = max(ClientTokenLength, len(prefix)); the minimum-UDP-size padding is applied only under PacketSize == 0")
 	c.Clause("C10.9 packPlannedInitial advances initialDatagramIdx for every datagram it takes; the single PN length is installed only when the per-packet list is empty")
 	c.Clause("C10.10 every non-zero DestConnIDLength of the spec is used for the Initial's destination connection ID; the flight's frame budget is packet size minus long header minus AEAD overhead")
+	c.Clause("C10.11 the plan index advances once per Initial datagram for every frame builder; C10.12 QUICRandomFrames measures its frames at the datagram's real base offset; C10.13 the PN-length list is based at initialPN()")
 	c.NotCovered("actual sizes / frame counts on the wire; decryptability by a server")
 	c.NotCovered("that a re-framed Initial stays within the connection's current maximum packet size (no such comparison exists: see DESIGN H7)")
 
@@ -354,6 +355,9 @@ func runC10(c *Ctx) {
 	c.rule("C10.8", func() { c10TokenAndPadding(c) })
 	c.rule("C10.9", func() { c10PlannedIndexAndPrecedence(c) })
 	c.rule("C10.10", func() { c10SpecLengthsAndBudget(c) })
+	c.rule("C10.11", func() { c10PlanIndexAdvances(c) })
+	c.rule("C10.12", func() { c10DryRunUsesRealOffset(c) })
+	c.rule("C10.13", func() { c10PNLengthListBase(c) })
 }
 
 func c10Live(c *Ctx) {
